@@ -44,6 +44,7 @@ def main():
         REPO = wt
         env["VERIF_REPO"] = wt
         env["VERIF_EVIDENCE_DIR"] = f"/tmp/seed-evidence-{os.getpid()}"
+        env["VERIF_BUILD_DIR"] = f"/tmp/seed-build-{os.getpid()}"
     st = sh(["git", "-C", REPO, "status", "--porcelain", "--untracked-files=no"]).stdout.strip()
     if st:
         print("refusing: the tree has uncommitted changes:\n" + st)
@@ -66,7 +67,7 @@ def main():
         if wt:
             sh(["git", "-C", "/repo", "worktree", "remove", "--force", wt])
             sh(["rm", "-rf", env["VERIF_EVIDENCE_DIR"]])
-            sh("rm -rf " + os.path.join(V, "build", "run-*-trial*"), shell=True)
+            sh(["rm", "-rf", env["VERIF_BUILD_DIR"]])
         else:
             sh(["git", "-C", REPO, "checkout", "--", "."])
             sh(["git", "-C", REPO, "clean", "-fdq", "src", "include", "tests"])
